@@ -121,9 +121,11 @@ def _c18_oracle(inp, obs, extra):
 def _c12_oracle(inp, obs, extra):
     """C12 evaluated on the implementation's own observations of an RTJ case"""
     f = inp.split(' ')
-    if f[0] != 'RTJ' or not extra:
+    # the implementation-level facts travel in the observation's own " ## " suffix
+    obs, _, iextra = obs.partition(' ## ')
+    if f[0] != 'RTJ' or not iextra:
         return None
-    ex = dict(t.split('=', 1) for t in extra.split(' ') if '=' in t)
+    ex = dict(t.split('=', 1) for t in iextra.split(' ') if '=' in t)
     if ex.get('ev') == '0':
         return 'Evidence.MarshalJSON / repeated EncodeClaimsToJSON differ from EncodeClaimsToJSON'
     if ex.get('gate') == '0':
@@ -134,7 +136,7 @@ def _c12_oracle(inp, obs, extra):
         return None
     if f[1] == '2' and (f[13] != p2 or f[2] != 's' + p2):
         return None
-    orig = ex.get('orig', '').split(',')
+    orig = ex.get('orig', '').split('|')
     if not orig or orig[0] != 'ok':
         return None
     o = obs.split(' ')
@@ -280,12 +282,12 @@ PROPS = {
         assumptions=['signatures idealised: SigBy k alg prot payload verifies exactly under key k / alg over that protected header and payload'],
     ),
     'C04': dict(
-        cone=EV_CONE + ['theories/DecodeProofs.v'], level='proof', oracle=_c04_oracle, signature=_c04_signature, kernel_maxlen=6000,
+        cone=EV_CONE + ['theories/DecodeProofs.v', 'theories/DecodePerm.v'], level='proof', oracle=_c04_oracle, signature=_c04_signature, kernel_maxlen=6000,
         nontrivial=lambda i, o: not o.startswith('ok') or ' e' in o, classify=lambda i, o: o.split(' ')[0],
         rule='tokens assembled by an independent CBOR writer: per claim key every value class (absent, null, undefined, booleans, simple values, floats of all widths, integers at every width boundary incl. 2^31, 2^32, 2^63, 2^64-1 and negative counterparts, non-preferred heads, byte strings of 14 lengths, texts incl. invalid UTF-8, arrays / maps / nested, tagged forms, indefinite lengths) with the rest valid; the other profile\'s keys mixed in; permuted key order; unknown extra keys (int, text, huge uint, byte-string / array / bool / float keys); duplicates; trailing and truncated bytes; pairs of deviations; non-map top-level items; non-trivial = rejected or some getter failing',
     ),
     'C08': dict(
-        cone=EV_CONE, level='proof', kernel_maxlen=6000,
+        cone=EV_CONE, level='proof', kernel_maxlen=6000, oracle=lambda i, o, x: _c12_oracle(i, o, x) if i.startswith('RTJ ') else None,
         nontrivial=lambda i, o: 'err' in o or ' e' in o, classify=lambda i, o: i.split(' ')[0] + ' ' + o.split(' ')[0][:3],
         rule='every C01 claims-set (valid and each kind of invalid) through ValidateAndEncodeClaimsToCBOR vs EncodeClaimsToCBOR, Evidence.SetClaims (result and whether anything was attached), ValidateAndSign (result, no token on failure, payload = plain encoding); every C04 token through DecodeAndValidateClaimsFromCBOR vs DecodeClaimsFromCBOR and DecodeAndValidateEvidenceFromCOSE vs DecodeEvidenceFromCOSE; non-trivial = some gate refused',
     ),
